@@ -217,10 +217,17 @@ def slack_of(sc):
     return max(1, sc["icap"]) + 2
 
 
-def crec(c):
+def sc_bound(c, slack):
+    """the monitor demands  first item >= r_sc - slack.  Two sound lower bounds on the insertion point of a consumer are known when its
+    SpawnOutput is called: the items whose push had completed (minus what may still be queued: the slack), and - exactly - one past the
+    highest item some consumer had already RECEIVED (its broadcast round had begun, so the new consumer is inserted behind it)."""
+    return max(c["sc_done"], c.get("sc_maxrecv", -1) + 1 + slack)
+
+
+def crec(c, slack=0):
     ok = (c["spawn_returned"] and c["despawn_returned"] and c["reader_done"] and not c["spawn_err"] and not c["despawn_err"]
           and not c["panic"])
-    return "(mkCrec %s %d %d %d %d %s %s)" % (cbool(ok), c["sc_done"], c["sr_started"], c["dc_done"], c["dr_started"],
+    return "(mkCrec %s %d %d %d %d %s %s)" % (cbool(ok), sc_bound(c, slack) if slack else c["sc_done"], c["sr_started"], c["dc_done"], c["dr_started"],
                                                 cbool(c["drained"]), clist([cN(x) for x in c["received"]]))
 
 
@@ -240,7 +247,7 @@ def eval_fanout(results, tag):
         body = HEAD
         for i in sh:
             sc, h = results[i]
-            recs = [crec(c) for c in h["consumers"] if c["spawn_called"]]
+            recs = [crec(c, slack_of(sc)) for c in h["consumers"] if c["spawn_called"]]
             body += "Definition H%d : list crec := %s.\n" % (i, clist(recs))
         body += "Definition REJ := Eval vm_compute in %s.\nPrint REJ.\n" % clist(
             ["(%d, accepts_history (mkHistory [] [] [] [] %d H%d), fanout_rejected %d H%d)"
@@ -472,6 +479,9 @@ def explain_consumer(sc, c, ci):
         a, b = r[0], r[0] + len(r)
         if c["sc_done"] > a + sl:
             return "%s: first item %d although %d items had been pushed before SpawnOutput was called" % (k, a, c["sc_done"])
+        if c.get("sc_maxrecv", -1) >= a:
+            return ("%s: first item %d although item %d had already been received by another consumer when its SpawnOutput was called "
+                    "(a message that arrived before the device was connected)" % (k, a, c["sc_maxrecv"]))
         if a > c["sr_started"]:
             return "%s: first item %d, but only %d items had been pushed when SpawnOutput returned (items %d..%d lost)" % (k, a, c["sr_started"], c["sr_started"], a - 1)
         if b > c["dr_started"]:
